@@ -148,12 +148,45 @@ theorem guarded_recursion_terminates (own : Bool) (v : Recursion.J) :
 theorem isEmpty_still_diverges (fuel : Nat) : Recursion.isEmpty (Recursion.ΓL false) fuel (.ref 0) = .diverge :=
   (Recursion.isEmpty_diverges fuel).1
 theorem isEmpty_without_subschemas_answers (Γ : Recursion.Env) (own : Bool) (fuel : Nat) :
-    Recursion.isEmpty Γ (fuel + 1) (.node own [] none) = .ok (!own) := Recursion.isEmpty_no_sub Γ own fuel
+    Recursion.isEmpty Γ (fuel + 1) (.node own none [] [] none) = .ok (!own) := Recursion.isEmpty_no_sub Γ own fuel
 
+/-- the same defect through the other unguarded positions: `A: {not: {$ref: A}}`, `A: {anyOf: [{$ref: A}]}` -/
+theorem unguarded_not_diverges (v : Recursion.J) (fuel : Nat) :
+    Recursion.visit Recursion.ΓN fuel (.ref 0) v = .diverge := (Recursion.not_cycle_diverges v fuel).1
+theorem unguarded_anyOf_diverges (v : Recursion.J) (fuel : Nat) :
+    Recursion.visit Recursion.ΓY fuel (.ref 0) v = .diverge := (Recursion.anyOf_cycle_diverges v fuel).1
+
+/-- GENERAL (every environment, every schema, every value): when the unguarded references — those not under
+    `items` — can be ranked, i.e. form no cycle, the validator decides, and the decision is the same for every
+    larger amount of fuel: no unbounded recursion outside F-C10-1 -/
+theorem guarded_recursion_decided (Γ : Recursion.Env) (rk : Nat → Nat) (hR : Recursion.Ranked Γ rk)
+    (s : Recursion.S) (v : Recursion.J) : ∃ n b, ∀ m, n ≤ m → Recursion.visit Γ m s v = .ok b :=
+  Recursion.ranked_never_diverges Γ rk hR v s
+
+/-- the decidable form the driver evaluates: `guardedB defs` (ranks computed by relaxation and then checked) is a
+    sufficient condition; `ExclRec defs := !guardedB defs` is the exclusion of F-C10-1 on this fragment -/
+def ExclRec (defs : List Recursion.S) : Bool := !Recursion.guardedB defs
+
+theorem guarded_recursion_decided_partial (defs : List Recursion.S) (hx : ExclRec defs = false)
+    (s : Recursion.S) (v : Recursion.J) : ∃ n b, ∀ m, n ≤ m → Recursion.visit (Recursion.envOf defs) m s v = .ok b :=
+  Recursion.guardedB_sound defs (by simpa [ExclRec] using hx) v s
+
+/-- the check separates the witnesses: the three unguarded self-references are excluded, the guarded ones and a
+    two-definition chain are not; the depth-bounded cycle search of the driver agrees on them -/
 theorem unguarded_cycle_detected :
-    Recursion.hasUnguardedCycle [.node true [.ref 0] none] = true ∧
-    Recursion.hasUnguardedCycle [.node false [.ref 0] none] = true ∧
-    Recursion.hasUnguardedCycle [.node false [] (some (.ref 0))] = false := by decide
+    ExclRec [.node true none [] [.ref 0] none] = true ∧ ExclRec [.node false none [] [.ref 0] none] = true ∧
+    ExclRec [.node false (some (.ref 0)) [] [] none] = true ∧ ExclRec [.node false none [.leaf true, .ref 0] [] none] = true ∧
+    ExclRec [.node false none [] [] (some (.ref 0))] = false ∧
+    ExclRec [.node false none [] [.ref 1] (some (.ref 0)), .node true (some (.leaf false)) [.leaf true] [] (some (.ref 0))] = false ∧
+    Recursion.hasUnguardedCycle [.node true none [] [.ref 0] none] = true ∧
+    Recursion.hasUnguardedCycle [.node false none [] [.ref 0] none] = true ∧
+    Recursion.hasUnguardedCycle [.node false none [] [] (some (.ref 0))] = false := by decide
+
+/-- non-vacuity of the general theorem: a two-definition environment with a guarded cycle and an unguarded chain -/
+example : ∃ n b, ∀ m, n ≤ m → Recursion.visit
+    (Recursion.envOf [.node false none [] [.ref 1] (some (.ref 0)), .node true (some (.leaf false)) [.leaf true] [] (some (.ref 0))])
+    m (.ref 0) (.arr [.num 1, .arr [.num 2]]) = .ok b :=
+  guarded_recursion_decided_partial _ (by decide) _ _
 
 /-! ## request, response, error conversion -/
 
